@@ -9,6 +9,17 @@ use self::reader::Read as _;
 use crate::symbol::Register;
 
 pub use self::reader::CommandReader;
+#[cfg(lace_verif)]
+pub use self::reader::VerifTerminal;
+
+/// Parse one command line; `Ok` carries the `Debug` rendering of the [`Command`], `Err` the
+/// `Display` rendering of the error. Line must be non-empty after trimming.
+#[cfg(lace_verif)]
+pub fn verif_parse_command(line: &str) -> Result<String, String> {
+    Command::try_from(line)
+        .map(|command| format!("{:?}", command))
+        .map_err(|error| error.to_string())
+}
 
 #[derive(Debug)]
 #[cfg_attr(test, derive(PartialEq))]
@@ -117,6 +128,8 @@ impl<'a> Command<'a> {
         F: Fn(error::Command),
     {
         loop {
+            #[cfg(lace_verif)]
+            crate::verif::note_command();
             let line = source.read()?.trim();
 
             // Necessary, since `Command::try_from` assumes non-empty line
